@@ -4,7 +4,7 @@ Oracle: specs/induced.py (restriction of the source tree computed from raw
 pointers) and specs/bipart.py (what a current encoding must hold).
 
 Monitors (name = <api variant>.<clause>):
-  .raises            the real call raised although >= 1 leaf survives
+  .raises            the real call raised although >= 1 leaf survives (class Hang: no result within the wall-clock guard)
   .wellformed        result is a single arborescence (specs.trees.arborescence_errors)
   .leafset           surviving leaf labels = requested survivors
   .clades            clades = non-empty restrictions of the source clades
@@ -40,7 +40,7 @@ import itertools
 import json
 
 from bounded.common import *  # noqa: F401,F403
-from bounded.common import build_tree, shapes_exact, shapes_upto, length_patterns, pmap, rng_for, n_leaves, LABELS, with_unifurcations
+from bounded.common import build_tree, shapes_exact, shapes_upto, length_patterns, pmap, rng_for, n_leaves, LABELS, with_unifurcations, time_limit, Timeout
 from specs import trees as S
 from specs import induced as I
 from specs import bipart as BP
@@ -51,6 +51,25 @@ from dendropy.datamodel.treemodel import Node, Tree
 
 STRICT_DECLINED_WITH_UPDATE = False
 MAX_REPORT_PER_MONITOR = 12
+HANG_SECONDS = 3
+HANG_LIMIT = 3      # per worker process and variant: afterwards the variant is reported without being run
+_HANGS = {}
+
+
+class Hang(Exception):
+    pass
+
+
+def guarded(variant, fn):
+    """run fn() under a wall-clock guard; a hang is reported as <variant>.raises with class Hang"""
+    if _HANGS.get(variant, 0) >= HANG_LIMIT:
+        raise Hang("not run: this variant already hung %d times in this worker" % HANG_LIMIT)
+    try:
+        with time_limit(HANG_SECONDS):
+            return fn()
+    except Timeout:
+        _HANGS[variant] = _HANGS.get(variant, 0) + 1
+        raise Hang("no result after %s s" % HANG_SECONDS)
 
 PATS = length_patterns()
 PATS["zeros"] = lambda i, leaf: (0.0 if i % 2 else 1.5)
@@ -301,7 +320,7 @@ def eval_source(spec, quick_subsets=None, variants_inplace=INPLACE, variants_ext
                     if upd:
                         t.encode_bipartitions(suppress_unifurcations=False, collapse_unrooted_basal_bifurcation=False)
                     try:
-                        rep = run_inplace(v, t, keep, sup, upd)
+                        rep = guarded(v, lambda: run_inplace(v, t, keep, sup, upd))
                     except Exception as ex:
                         F.add("%s.raises" % v, key, "%s: %s" % (type(ex).__name__, ex), **base)
                         continue
@@ -323,7 +342,7 @@ def eval_source(spec, quick_subsets=None, variants_inplace=INPLACE, variants_ext
                     keep = set(x for x in src.taxon_namespace if x.label in ks)
                     snap = I.snapshot(src)
                     try:
-                        new = run_extract(v, src, keep, sup)
+                        new = guarded(v, lambda: run_extract(v, src, keep, sup))
                     except Exception as ex:
                         F.add("%s.raises" % v, key, "%s: %s" % (type(ex).__name__, ex), **base)
                         continue
@@ -458,7 +477,7 @@ def eval_prune_subtree(spec):
                     t.encode_bipartitions(suppress_unifurcations=False, collapse_unrooted_basal_bifurcation=False)
                 nd = S.pre(t._seed_node)[ti]
                 try:
-                    t.prune_subtree(nd, update_bipartitions=upd, suppress_unifurcations=sup)
+                    guarded("prune_subtree", lambda: t.prune_subtree(nd, update_bipartitions=upd, suppress_unifurcations=sup))
                 except Exception as ex:
                     F.add("prune_subtree.raises", key, "%s: %s" % (type(ex).__name__, ex), **base)
                     continue
@@ -514,8 +533,8 @@ def eval_filters(spec):
                 flags.append(m >= 4)
                 snap = I.snapshot(src)
                 try:
-                    new = src.extract_tree(node_filter_fn=acc, suppress_unifurcations=sup, is_apply_filter_to_leaf_nodes=app_leaf,
-                                           is_apply_filter_to_internal_nodes=app_int)
+                    new = guarded("extract_tree", lambda: src.extract_tree(node_filter_fn=acc, suppress_unifurcations=sup,
+                                                                           is_apply_filter_to_leaf_nodes=app_leaf, is_apply_filter_to_internal_nodes=app_int))
                 except Exception as ex:
                     F.add("extract_tree.raises", key, "%s: %s" % (type(ex).__name__, ex), **base)
                     continue
@@ -543,7 +562,7 @@ def eval_filters(spec):
                 idx_t = {id(nd): i for i, nd in enumerate(order_t)}
                 acc_t = lambda nd, mask=mask: bool((mask >> idx_t[id(nd)]) & 1)
                 try:
-                    rep = t.filter_leaf_nodes(acc_t, recursive=recursive, suppress_unifurcations=sup)
+                    rep = guarded("filter_leaf_nodes", lambda: t.filter_leaf_nodes(acc_t, recursive=recursive, suppress_unifurcations=sup))
                 except Exception as ex:
                     F.add("filter_leaf_nodes.raises", key, "%s: %s" % (type(ex).__name__, ex), **base)
                     continue
@@ -636,11 +655,11 @@ def eval_prune_flags(spec):
                         t = mk_internal_taxa(spec)
                         try:
                             if v == "prune_taxa":
-                                t.prune_taxa([x for x in t.taxon_namespace if x.label in sel], suppress_unifurcations=sup,
-                                             is_apply_filter_to_leaf_nodes=app_leaf, is_apply_filter_to_internal_nodes=app_int)
+                                guarded(v, lambda: t.prune_taxa([x for x in t.taxon_namespace if x.label in sel], suppress_unifurcations=sup,
+                                                                is_apply_filter_to_leaf_nodes=app_leaf, is_apply_filter_to_internal_nodes=app_int))
                             else:
-                                t.prune_taxa_with_labels(sorted(sel), suppress_unifurcations=sup,
-                                                         is_apply_filter_to_leaf_nodes=app_leaf, is_apply_filter_to_internal_nodes=app_int)
+                                guarded(v, lambda: t.prune_taxa_with_labels(sorted(sel), suppress_unifurcations=sup,
+                                                                            is_apply_filter_to_leaf_nodes=app_leaf, is_apply_filter_to_internal_nodes=app_int))
                         except Exception as ex:
                             F.add("%s.raises" % v, key, "%s: %s" % (type(ex).__name__, ex), **base)
                             continue
